@@ -28,7 +28,19 @@ def prim_contracts(u, N, EN, tag=""):
     return cg, cs
 
 
-def contracts(tier, std="c++17"):
+def contracts(tier):
+    """quick: C++17 everything + C++20 (bit_cast / std::copy / reverse_copy code path) for the byte codec itself;
+    thorough: C++11, C++14, C++17, C++20 everything"""
+    out = contracts_std(tier, "c++17")
+    if tier == "thorough":
+        for std in ("c++11", "c++14", "c++20"):
+            out += contracts_std(tier, std)
+    else:
+        out += [c for c in contracts_std(tier, "c++20") if "_primitive<" in c.name]
+    return out
+
+
+def contracts_std(tier, std="c++17"):
     out = []
     tag = "" if std == "c++17" else "[" + std + "]"
     for asserts in ("checked", "unchecked"):
@@ -136,4 +148,8 @@ def contracts(tier, std="c++17"):
         out.append(Contract(f, "entry_base::get_block_length" + at, props={"C03"}, pre=[OBJ("self", f.params[0]["rec"])], post=[("wire-block-length", "RET == %s" % ew.field(0))], assigns=[]))
         f = u.target("r_entry_level")
         out.append(Contract(f, "entry_base::get_level" + at, props={"C03"}, pre=[OBJ("self", f.params[0]["rec"])], post=[("level-is-begin", "RET == %s" % ew.begin)], assigns=[]))
+    if std in ("c++20", "c++2b"):
+        for c in out:
+            c.unwind = 10
+            c.kind = "exact-by-width(sizeof(T)<=8)"
     return out
